@@ -190,6 +190,20 @@ def bounded(params):
         ([0, 0, 1, 1, 1, 1, 0, 2, 2, 0], [0, 1, 1, 0, 2, 2, 0, 0, 3, 3]),
     ]
     failures, evals, nontriv = [], 0, 0
+    # the merge matcher with labels beyond CPython's small-integer cache (identity vs equality of label values) and beyond 2^16
+    for pl, rl in base_pairs + [([1, 1, 2, 2, 0, 3, 0, 0], [1, 1, 1, 1, 0, 2, 2, 0])]:
+        base_m = _evaluate(np.array(pl, np.uint8), np.array(rl, np.uint8), "UNMATCHED_INSTANCE", matcher="merge")
+        for fp_, fr_ in (({1: 700, 2: 300, 3: 1000}, {1: 1000, 2: 700, 3: 300}), ({1: 70000, 2: 70001, 3: 257}, {1: 70001, 2: 70002, 3: 258})):
+            pred = np.array([fp_.get(x, 0) for x in pl], np.uint32)
+            ref = np.array([fr_.get(x, 0) for x in rl], np.uint32)
+            evals += 1
+            try:
+                got = _evaluate(pred, ref, "UNMATCHED_INSTANCE", matcher="merge")
+            except Exception as e:
+                got = {"raised": f"{type(e).__name__}: {e}"[:120]}
+            if got != base_m and len(failures) < 6:
+                diff = {k: (base_m.get(k), got.get(k)) for k in set(base_m) | set(got) if base_m.get(k) != got.get(k)}
+                failures.append({"input": {"pred": pred.tolist(), "ref": ref.tolist(), "matcher": "merge"}, "problems": [str(diff)[:300]], "replay_kind": "c09.e2e"})
     n_ren = 3 if tier == "quick" else 12
     for pl, rl in base_pairs:
         for it in ("UNMATCHED_INSTANCE", "MATCHED_INSTANCE"):
